@@ -328,3 +328,297 @@ Section Append.
       eapply grows_trans; [exact G2|]. eapply layers_loop_grows, E3.
   Qed.
 End Append.
+
+(** ---------- shape, with the defect switch off ---------- *)
+Section Shape.
+  Context {D : Type}.
+  Variable dlen : D -> Z.
+  Variable dnil : D.
+  Variable w : nat.
+  Hypothesis Hw1 : (1 <= w)%nat.
+  Hypothesis Hdnil : dlen dnil = 0.
+  Variable raw : bool.
+  Notation k := (tri_kind raw).
+  Notation nst := (@nst D).
+  Notation tgo := (tri_go dlen w raw).
+  Notation tok := (tri_ok dlen w raw).
+  Notation W := (Z.of_nat w).
+
+  (** the links of a node that is verified at depth M (-1 at the root) *)
+  Definition kids_ok (M : Z) (ks : list (tree D)) : Prop := tgo M 0 ks = true.
+
+  Lemma tgo_mono a b : (b <= 0 \/ (0 < a /\ a <= b)) ->
+    forall l i, tgo a i l = true -> tgo b i l = true.
+  Proof.
+    intros Hab. induction l as [|c l IH]; intros i H; [reflexivity|].
+    cbn [tri_go] in *. apply andb_true_iff in H. destruct H as [Hc Hl].
+    rewrite (IH _ Hl), andb_true_r.
+    destruct (i <? W); [exact Hc|].
+    apply andb_true_iff in Hc. destruct Hc as [Hd Hc]. rewrite Hc, andb_true_r.
+    cbv zeta in *. lia.
+  Qed.
+
+  Lemma tok_mono a b (t : tree D) : 1 <= a -> a <= b -> tok t a = true -> tok t b = true.
+  Proof.
+    intros Ha Hab. destruct t as [kd rs d | rs bs ks].
+    - cbn [tri_ok]. replace (a =? 0) with false by lia. replace (b =? 0) with false by lia. auto.
+    - rewrite !tri_ok_node. intros H. apply andb_true_iff in H. destruct H as [_ H].
+      replace (b =? 0) with false by lia. cbn [negb andb].
+      apply (tgo_mono a b); [right; lia | exact H].
+  Qed.
+
+  (** a subtree built by fillTrickleRec(maxDepth = p) passes the verifier at depth d >= max(p, 1) *)
+  Lemma tri_p_tok p d (t : tree D) : 1 <= d -> p <= d -> tri_p dlen w raw p t = true -> tok t d = true.
+  Proof.
+    unfold tri_p. intros Hd Hp H. eapply tok_mono; [| |exact H]; lia.
+  Qed.
+
+  Lemma depth_info_spec (s : nst) d j : depth_info w s = (d, j) ->
+    (num_children s < W /\ d = 0 /\ j = 0) \/
+    (W <= num_children s /\ num_children s = W + 4 * (d - 1) + j /\ 0 <= j < 4 /\ 1 <= d).
+  Proof.
+    unfold depth_info. change (Z.of_nat depth_repeat) with 4.
+    destruct (num_children s <? W) eqn:E; intros H; inversion H; subst; [left; lia|right].
+    pose proof (Z.div_mod (num_children s - W) 4 ltac:(lia)) as Hdm.
+    pose proof (Z.mod_pos_bound (num_children s - W) 4 ltac:(lia)) as Hb.
+    assert (0 <= (num_children s - W) / 4) by (apply Z.div_pos; lia).
+    lia.
+  Qed.
+
+  (** state of a node opened from a tree that verifies at depth L *)
+  Lemma open_kids_ok L (t : tree D) (s : nst) : L <> 0 ->
+    open dlen t = Some s -> tok t L = true -> kids_ok L (st_kids s).
+  Proof.
+    intros HL. destruct t as [kd rs d | rs bs ks]; cbn [open].
+    - destruct kd; try discriminate. destruct (dlen d =? 0); [|discriminate].
+      intros H _; inversion H; subst. reflexivity.
+    - intros H; inversion H; subst. rewrite tri_ok_node. intros Hk.
+      apply andb_true_iff in Hk. apply Hk.
+  Qed.
+
+  Lemma commit_tok L (s : nst) : L <> 0 -> kids_ok L (st_kids s) -> tok (commit dnil s) L = true.
+  Proof.
+    intros HL. destruct s as [[rs bs] ks]. unfold st_kids. cbn [snd commit]. intros Hk.
+    destruct ks as [|c ks].
+    - cbn [tri_ok]. replace (L =? 0) with false by lia. rewrite Hdnil. reflexivity.
+    - rewrite tri_ok_node, Hk. replace (L =? 0) with false by lia. reflexivity.
+  Qed.
+
+  (** adding direct leaves to a node that has fewer than w links *)
+  Lemma fill_layer_kids M (s : nst) cs s' r :
+    fill_layer dlen w k s cs = (s', r) -> kids_ok M (st_kids s) -> num_children s <= W ->
+    kids_ok M (st_kids s') /\ num_children s' <= W /\ (r <> [] -> num_children s' = W).
+  Proof.
+    unfold fill_layer, num_children.
+    destruct (fill_slots (leafb dlen k) (w - length (st_kids s)) cs) as [ls r0] eqn:E.
+    intros H Hk Hn; inversion H; subst.
+    destruct (fill_slots_spec dlen _ _ _ (leafb_tri_spec dlen w raw) _ _ _ _ E)
+      as (_ & _ & Ip & Ilen & Iq & _).
+    rewrite add_kids_kids, app_length. unfold kids_ok.
+    split; [|split].
+    - rewrite tri_go_app by exact Hw1. rewrite Hk. cbn [andb].
+      apply tri_go_direct; [exact Hw1 | exact Ip | unfold zlen; lia].
+    - lia.
+    - intros Hr. destruct (Iq Hr) as [Hl _]. lia.
+  Qed.
+
+  (** the "continue filling" loop, started where the child count says *)
+  Lemma layers_loop_kids M : forall fuel (s : nst) i j0 bound cs,
+    kids_ok M (st_kids s) ->
+    (cs = [] \/ (num_children s = W + 4 * (i - 1) + j0 /\ 0 <= j0 < 4 /\ 1 <= i)) ->
+    match bound with Some m => M <= 0 \/ m <= M | None => M <= 0 end ->
+    kids_ok M (st_kids (fst (layers_loop dlen w k fuel s i j0 bound cs))).
+  Proof.
+    induction fuel as [|fuel IH]; intros s i j0 bound cs Hk Hpos Hb; cbn [layers_loop]; [exact Hk|].
+    destruct (is_nil cs || match bound with Some m => m <=? i | None => false end) eqn:Estop; [exact Hk|].
+    apply orb_false_iff in Estop. destruct Estop as [Enil Ebound].
+    destruct Hpos as [-> | (Hn & Hj & Hi)]; [discriminate|].
+    destruct (fill_slots (tri_sub_z dlen w k i) (Z.to_nat (Z.of_nat depth_repeat - j0)) cs) as [ls r0] eqn:E.
+    destruct (fill_slots_spec dlen _ _ _ (tri_sub_z_spec dlen w Hw1 raw i) _ _ _ _ E)
+      as (_ & _ & Ip & Ilen & Iq & _).
+    change (Z.of_nat depth_repeat) with 4 in *.
+    unfold num_children in *.
+    apply IH.
+    - rewrite add_kids_kids. unfold kids_ok. rewrite tri_go_app by exact Hw1. rewrite Hk. cbn [andb].
+      apply (tri_go_layer dlen w Hw1 raw M i).
+      + rewrite forallb_forall in Ip |- *. intros c Hc. apply (tri_p_tok i i); [lia | lia | apply Ip, Hc].
+      + unfold zlen. lia.
+      + unfold zlen. lia.
+      + lia.
+      + destruct bound as [m|]; [|left; exact Hb]. destruct Hb as [Hb | Hb]; [left; exact Hb | right; lia].
+    - destruct r0 as [|c0 r0]; [left; reflexivity|]. right.
+      destruct (Iq ltac:(discriminate)) as [Hl _]. rewrite add_kids_kids, app_length. lia.
+    - exact Hb.
+  Qed.
+
+  (** appendFillLastChild, given that the recursion on the last child preserves its shape *)
+  Section FillLast.
+    Variable rec : nst -> Z -> list D -> option (nst * list D).
+    Hypothesis Hrec : forall ls m cs ls' r L,
+      rec ls m cs = Some (ls', r) -> 1 <= L -> m <= L -> kids_ok L (st_kids ls) -> kids_ok L (st_kids ls').
+
+    Lemma fill_last_kids M (s : nst) d rep p cs s' r :
+      fill_last dlen dnil w k rec s p rep cs = Some (s', r) ->
+      depth_info w s = (d, rep) -> 1 <= d -> p <= d ->
+      kids_ok M (st_kids s) -> kids_ok M (st_kids s') /\ num_children s <= num_children s'.
+    Proof.
+      intros H Hinfo Hd Hp Hk. unfold fill_last in H.
+      destruct (num_children s <=? W) eqn:En; [inversion H; subst; split; [exact Hk | lia]|].
+      destruct (depth_info_spec _ _ _ Hinfo) as [(Hlt & _) | (Hge & Hn & Hj & _)]; [lia|].
+      destruct (open dlen (last (st_kids s) (Leaf KRaw 0 dnil))) as [ls|] eqn:Eo; [|discriminate].
+      destruct (rec ls (p - 1) cs) as [[ls' cs1]|] eqn:Er; [|discriminate].
+      destruct s as [[rs bs] ks]. unfold num_children, st_kids in *. cbn [snd] in *.
+      assert (Hks : ks <> []) by (destruct ks; [cbn in En; lia | discriminate]).
+      set (lastk := last ks (Leaf KRaw 0 dnil)) in *.
+      pose proof (removelast_last ks (Leaf KRaw 0 dnil) Hks) as Hsplit. fold lastk in Hsplit.
+      set (pre := removelast ks) in *.
+      assert (Hlen : Z.of_nat (length ks) = zlen pre + 1).
+      { rewrite Hsplit, app_length. unfold zlen. cbn [length]. lia. }
+      (* the layer of the last link *)
+      set (L := (zlen pre - W) / 4 + 1).
+      assert (HL : L = if rep =? 0 then d - 1 else d).
+      { unfold L. destruct (rep =? 0) eqn:Erep.
+        - assert (zlen pre - W = 4 * (d - 2) + 3) as -> by lia.
+          rewrite <- (Z.div_unique (4 * (d - 2) + 3) 4 (d - 2) 3); lia.
+        - rewrite <- (Z.div_unique (zlen pre - W) 4 (d - 1) (rep - 1)); lia. }
+      assert (HL1 : 1 <= L).
+      { rewrite HL. destruct (rep =? 0) eqn:Erep; [|lia]. lia. }
+      unfold kids_ok in Hk. rewrite Hsplit, tri_go_app in Hk by exact Hw1.
+      apply andb_true_iff in Hk. destruct Hk as [Hpre Hlast].
+      rewrite Z.add_0_l in Hlast. cbn [tri_go] in Hlast. rewrite andb_true_r in Hlast.
+      change (Z.of_nat depth_repeat) with 4 in Hlast.
+      replace (zlen pre <? W) with false in Hlast by lia. cbv zeta in Hlast. fold L in Hlast.
+      apply andb_true_iff in Hlast. destruct Hlast as [HdM HlastL].
+      assert (HM : M <= 0 \/ L < M) by lia.
+      pose proof (Hrec _ _ _ _ _ L Er HL1 ltac:(rewrite HL; destruct (rep =? 0); lia)
+                    (open_kids_ok L _ _ ltac:(lia) Eo HlastL)) as Hls'.
+      pose proof (commit_tok L ls' ltac:(lia) Hls') as Hnew.
+      assert (Hs1 : kids_ok M (pre ++ [commit dnil ls'])).
+      { unfold kids_ok. rewrite tri_go_app by exact Hw1. rewrite Hpre. cbn [andb tri_go].
+        rewrite Z.add_0_l, andb_true_r. change (Z.of_nat depth_repeat) with 4.
+        replace (zlen pre <? W) with false by lia. cbv zeta. fold L. rewrite Hnew, HdM. reflexivity. }
+      assert (Hk1 : st_kids (add_child (remove_last (rs, bs, ks)) (commit dnil ls') (st_size ls'))
+                    = pre ++ [commit dnil ls']) by reflexivity.
+      destruct (rep =? 0) eqn:Erep.
+      { injection H as <- <-. split; [exact Hs1|].
+        change (Z.of_nat (length ks) <= Z.of_nat (length (pre ++ [commit dnil ls']))).
+        rewrite app_length. unfold zlen in Hlen. cbn [length]. lia. }
+      destruct (fill_slots (tri_sub_z dlen w k p) (Z.to_nat (Z.of_nat depth_repeat - rep)) cs1) as [new cs2] eqn:E.
+      injection H as <- <-.
+      destruct (fill_slots_spec dlen _ _ _ (tri_sub_z_spec dlen w Hw1 raw p) _ _ _ _ E)
+        as (_ & _ & Ip & Ilen & _).
+      change (Z.of_nat depth_repeat) with 4 in Ilen.
+      set (s1 := add_child (remove_last (rs, bs, ks)) (commit dnil ls') (st_size ls')) in *.
+      assert (Hk2 : st_kids (add_kids s1 new) = (pre ++ [commit dnil ls']) ++ new)
+        by (rewrite add_kids_kids, Hk1; reflexivity).
+      change (kids_ok M (st_kids (add_kids s1 new)) /\
+              Z.of_nat (length ks) <= Z.of_nat (length (st_kids (add_kids s1 new)))).
+      rewrite Hk2. split; [|rewrite !app_length; unfold zlen in Hlen; cbn [length]; lia].
+      unfold kids_ok. rewrite tri_go_app by exact Hw1. rewrite Hs1. cbn [andb]. rewrite Z.add_0_l.
+      apply (tri_go_layer dlen w Hw1 raw M d).
+      - rewrite forallb_forall in Ip |- *. intros c Hc. apply (tri_p_tok p d); [lia | lia | apply Ip, Hc].
+      - rewrite zlen_app. unfold zlen at 2. cbn [length]. lia.
+      - rewrite zlen_app. unfold zlen at 2 3. cbn [length]. lia.
+      - lia.
+      - rewrite HL in HM. lia.
+    Qed.
+  End FillLast.
+
+  Lemma append_rec_kids : forall fuel (s : nst) m cs s' r L,
+    append_rec dlen dnil w k aflags_off fuel s m cs = Some (s', r) ->
+    1 <= L -> m <= L -> kids_ok L (st_kids s) -> kids_ok L (st_kids s').
+  Proof.
+    induction fuel as [|fuel IH]; intros s m cs s' r L H HL Hm Hk; cbn [append_rec] in H; [discriminate|].
+    destruct ((m =? 0) || is_nil cs); [inversion H; subst; exact Hk|].
+    destruct (depth_info w s) as [d0 rep] eqn:Einfo.
+    destruct (depth_info_spec _ _ _ Einfo) as [(Hlt & -> & ->) | (Hge & Hn & Hj & Hd1)].
+    - cbn [Z.eqb] in H.
+      destruct (fill_layer dlen w k s cs) as [s1 cs1] eqn:Ef.
+      destruct (fill_layer_kids L _ _ _ _ Ef Hk ltac:(lia)) as (Hk1 & Hn1 & Hfull).
+      destruct (1 =? m); [inversion H; subst; exact Hk1|].
+      unfold fill_last in H. replace (num_children s1 <=? W) with true in H by lia.
+      unfold resume in H. cbn [f_depth_incr aflags_off] in H.
+      destruct (depth_info w s1) as [d' j0] eqn:E1.
+      match type of H with Some ?X = _ => assert (Hs' : s' = fst X) by (injection H as H0; rewrite H0; reflexivity) end.
+      rewrite Hs'. apply layers_loop_kids; [exact Hk1 | | right; exact Hm].
+      destruct cs1 as [|c1 cs1]; [left; reflexivity|]. right.
+      destruct (depth_info_spec _ _ _ E1) as [(Hlt1 & _) | (_ & Hn1' & Hj1 & Hd1)].
+      + specialize (Hfull ltac:(discriminate)). lia.
+      + auto.
+    - replace (d0 =? 0) with false in H by lia.
+      destruct (d0 =? m); [inversion H; subst; exact Hk|].
+      destruct (fill_last dlen dnil w k (append_rec dlen dnil w k aflags_off fuel) s d0 rep cs) as [[s2 cs2]|] eqn:El;
+        [|discriminate].
+      destruct (fill_last_kids _ IH L _ _ _ _ _ _ _ El Einfo Hd1 ltac:(lia) Hk) as [Hk2 Hn2].
+      unfold resume in H. cbn [f_depth_incr aflags_off] in H.
+      destruct (depth_info w s2) as [d' j0] eqn:E2.
+      match type of H with Some ?X = _ => assert (Hs' : s' = fst X) by (injection H as H0; rewrite H0; reflexivity) end.
+      rewrite Hs'. apply layers_loop_kids; [exact Hk2 | | right; exact Hm].
+      destruct (depth_info_spec _ _ _ E2) as [(Hlt2 & _) | (_ & Hn2' & Hj2 & Hd2)]; [lia|].
+      right. auto.
+  Qed.
+
+  (** Append with the corrected continuation keeps the trickle shape *)
+  Theorem append_shape (t : tree D) cs t' :
+    tri_shape dlen w raw t = true ->
+    append dlen dnil w k aflags_off t cs = Some t' ->
+    tri_shape dlen w raw t' = true.
+  Proof.
+    unfold tri_shape, append. intros Ht H.
+    destruct (open dlen t) as [s|] eqn:Eo; [|discriminate].
+    pose proof (open_kids_ok (-1) _ _ ltac:(lia) Eo Ht) as Hk.
+    destruct (depth_info w s) as [d0 rep] eqn:Einfo.
+    destruct (depth_info_spec _ _ _ Einfo) as [(Hlt & -> & ->) | (Hge & Hn & Hj & Hd1)].
+    - cbn [Z.eqb andb] in H.
+      destruct (fill_layer dlen w k s cs) as [s1 cs1] eqn:Ef.
+      destruct (fill_layer_kids (-1) _ _ _ _ Ef Hk ltac:(lia)) as (Hk1 & Hn1 & Hfull).
+      destruct (is_nil cs1).
+      { injection H as <-. apply commit_tok; [lia | exact Hk1]. }
+      unfold fill_last in H. replace (num_children s1 <=? W) with true in H by lia.
+      unfold resume in H. cbn [f_depth_incr aflags_off] in H.
+      destruct (depth_info w s1) as [d' j0] eqn:E1.
+      injection H as <-. apply commit_tok; [lia|].
+      apply layers_loop_kids; [exact Hk1 | | lia].
+      destruct cs1 as [|c1 cs1]; [left; reflexivity|]. right.
+      destruct (depth_info_spec _ _ _ E1) as [(Hlt1 & _) | (_ & Hn1' & Hj1 & Hd1)].
+      + specialize (Hfull ltac:(discriminate)). lia.
+      + auto.
+    - replace (d0 =? 0) with false in H by lia. cbn [andb] in H.
+      destruct (fill_last dlen dnil w k (append_rec dlen dnil w k aflags_off (height t)) s (d0 - 1) rep cs)
+        as [[s2 cs2]|] eqn:El; [|discriminate].
+      destruct (fill_last_kids _ (append_rec_kids (height t)) (-1) _ _ _ _ _ _ _ El Einfo Hd1 ltac:(lia) Hk)
+        as [Hk2 Hn2].
+      unfold resume in H. cbn [f_depth_incr aflags_off] in H.
+      destruct (depth_info w s2) as [d' j0] eqn:E2.
+      injection H as <-. apply commit_tok; [lia|].
+      apply layers_loop_kids; [exact Hk2 | | lia].
+      destruct (depth_info_spec _ _ _ E2) as [(Hlt2 & _) | (_ & Hn2' & Hj2 & Hd2)]; [lia|].
+      right. auto.
+  Qed.
+End Shape.
+
+(** the defect: the code's continuation rule breaks the shape *)
+Lemma shape_refuted :
+  exists (t : tree (list Z)) (cs : list (list Z)),
+    tri_tree zlen [] 2 false [[1]] = Some t /\
+    match append zlen [] 2 KPbRaw aflags_on t cs with
+    | Some t' => tri_shape zlen 2 false t' = false /\ content t' = content t ++ concat cs /\
+                 sizes_ok zlen t' = true
+    | None => False
+    end.
+Proof.
+  eexists. exists [[2]; [3]; [4]; [5]]. split; [vm_compute; reflexivity|].
+  vm_compute. repeat split.
+Qed.
+
+(** byte level *)
+Theorem append_content {A} (w : nat) (Hw : (1 <= w)%nat) raw fl (t : tree (list A)) cs t' :
+  append zlen [] w (tri_kind raw) fl t cs = Some t' -> content t' = content t ++ concat cs.
+Proof.
+  intros H. destruct (append_content_sizes zlen [] w Hw eq_refl raw fl t cs t' H) as (Hl & _).
+  assert (Hc : forall l : list (list A), concat (nonempty zlen l) = concat l).
+  { induction l as [|x l IH]; [reflexivity|]. cbn [nonempty filter].
+    destruct x as [|a x]; cbn; [exact IH|]. unfold nonempty in IH. rewrite IH. reflexivity. }
+  unfold content. rewrite <- (Hc (leaves t')), <- (Hc (leaves t)), <- (Hc cs), <- concat_app.
+  f_equal. exact Hl.
+Qed.
